@@ -37,7 +37,9 @@ func (d *DeleteAclsResponse) decode(pd packetDecoder, version int16) (err error)
 	if err != nil {
 		return err
 	}
-	d.FilterResponses = make([]*FilterResponse, n)
+	if n >= 0 {
+		d.FilterResponses = make([]*FilterResponse, n)
+	}
 
 	for i := 0; i < n; i++ {
 		d.FilterResponses[i] = new(FilterResponse)
@@ -105,7 +107,9 @@ func (f *FilterResponse) decode(pd packetDecoder, version int16) (err error) {
 	if err != nil {
 		return err
 	}
-	f.MatchingAcls = make([]*MatchingAcl, n)
+	if n >= 0 {
+		f.MatchingAcls = make([]*MatchingAcl, n)
+	}
 	for i := 0; i < n; i++ {
 		f.MatchingAcls[i] = new(MatchingAcl)
 		if err := f.MatchingAcls[i].decode(pd, version); err != nil {
